@@ -14,6 +14,7 @@ import (
 	"pgregory.net/rapid"
 	"verif/cluster"
 	"verif/fakemongo"
+	"verif/refmodel"
 	"verif/sim"
 	"verif/stats"
 )
@@ -36,6 +37,16 @@ func c08Scenarios() []c07Scenario {
 			{K: "client", C: 1}, {K: "open", C: 1, Mode: "subscribe-or-create"}, x(1),
 			op(1), op(1), x(1), x(0), op(0), x(0), x(1),
 		}})
+		if kind == sim.Document {
+			// the REST patch endpoint: rebuilds the document from the store, pushes its patches as one transaction,
+			// answers with the patched document; its caller is a client like any other
+			n = 0
+			out = append(out, c07Scenario{Name: "document/rest-patch", Kind: kind, Steps: []c07Step{
+				{K: "client", C: 0}, {K: "open", C: 0, Mode: "subscribe-or-create"}, op(0), x(0),
+				{K: "patch", Mode: `{"b1":1,"p":"x","q":[1,2]}`}, x(0), op(0), x(0),
+				{K: "patch", Mode: `{"b1":1,"q":[2],"r":{"s":true}}`}, x(0), x(0),
+			}})
+		}
 		if kind != sim.Document {
 			// a push that carries a transaction of the user between plain operations (4 stored documents: marker, two
 			// operations, one plain operation): an insert that is interrupted keeps what it has written so far
@@ -241,13 +252,17 @@ func c08Run(sc c07Scenario, f *c08Fault, idseed uint64) (res c08Result) {
 				w.skipConverge = map[string]bool{}
 			}
 			w.skipConverge[k.Name] = true
-			_, e, to := w.env.PatchDocument(&model.PatchMessage{Collection: w.col, Key: k.Name, Json: st.Mode}, l1Deadline)
+			pr, e, to := w.env.PatchDocument(&model.PatchMessage{Collection: w.col, Key: k.Name, Json: st.Mode}, l1Deadline)
 			if to {
 				res.err = fmt.Errorf("step %d: the REST patch was never answered (hang)", si)
 				return res
 			}
 			if e != nil {
 				res.sawError = true
+			} else if err := w.patchIsStored(k, pr); err != nil {
+				// a patch that was answered without an error is acknowledged: it has to be in the log
+				res.err = fmt.Errorf("step %d: %v", si, err)
+				return res
 			}
 		case "x":
 			c := w.clients[st.C]
@@ -669,3 +684,33 @@ func c08Classify(r c08Result, f *c08Fault) string {
 var _ = iface.Datatype(nil)
 var _ = model.CheckPoint{}
 var _ = orda.NewHandlers
+
+// patchIsStored: the document a REST patch answered with has to be what the stored log defines (the steps of a
+// scenario are sequential: nobody else writes between the patch and this look at the store).
+func (w *l1World) patchIsStored(k *l1Key, pr *model.PatchMessage) error {
+	duid := ""
+	for _, d := range w.datatypeDocs() {
+		if bstr(bget(d, "key")) == k.Name {
+			duid = bstr(bget(d, "_id"))
+		}
+	}
+	var ops []*model.Operation
+	if duid != "" {
+		log, _ := w.storedLog(duid)
+		for _, so := range log {
+			ops = append(ops, so.op)
+		}
+	}
+	st, err := refmodel.Compute(string(sim.Document), ops)
+	if err != nil {
+		return fmt.Errorf("the stored log of %s cannot be replayed after a REST patch: %v", k.Name, err)
+	}
+	var answered interface{}
+	if err := jsonUnmarshal([]byte(pr.GetJson()), &answered); err != nil {
+		return fmt.Errorf("the REST patch answered with something that is not JSON: %q", pr.GetJson())
+	}
+	if got, want := sim.Canon(st.JSON()), sim.Canon(answered); got != want {
+		return fmt.Errorf("the REST patch of %s was answered without an error, with the document %s, but the stored log (%d operations) defines %s: an acknowledged patch is not stored", k.Name, want, len(ops), got)
+	}
+	return nil
+}
